@@ -7,6 +7,10 @@ arguments and the expression attributes are what the def needs *from the enclosi
 parameters (`DefTag.undeclared_identifiers()`: `….difference(self.function_decl.<field>)`).  What the fields of a
 `FunctionDecl` hold is decided by `pyparser.ParseFunc` (`argnames`, `kwargnames`) and `FunctionDecl.allargnames`.
 Every piece of that chain is a regenerated fact (`Generated.PyExpr`); this file only interprets the names.
+
+Only the def's two facts (`defTagSubtracted`, `defTagDeclared`) are interpreted here.  `blockTagDeclared` and
+`pageTagDeclared` are regenerated too but have no consumer in the model: `def_tag_knows_all_parameters`
+(`Props/C19.lean`) pins them to the same attribute as `defTagDeclared`, which is all that is claimed about them.
 -/
 namespace MakoModel.PyExpr
 open Generated.PyExpr
